@@ -55,6 +55,8 @@ func main() {
 		runC10(r, rng, thorough)
 	case "C20":
 		runC20(r, rng, thorough)
+	case "C07":
+		runC07(r, rng, thorough)
 	case "C14":
 		runC14(r, rng, thorough)
 	case "C17":
